@@ -854,7 +854,7 @@ def _t_arith(ctx, P):
             return []
         for t in ast.walk(fn):
             if isinstance(t, ast.Try) and any('ArithmeticError' in ast.unparse(h.type) for h in t.handlers if h.type):
-                tbl = table_dispatch(t.body, core_mod, P)
+                tbl = table_dispatch(t.body, core_mod, P, pre=[x for x in ast.walk(fn) if isinstance(x, ast.Assign)])
                 if tbl is None:
                     continue
                 for c, kind in tbl:
